@@ -1,6 +1,7 @@
 package main
 
 import (
+	"fmt"
 	"go/constant"
 	"go/token"
 	"go/types"
@@ -301,7 +302,21 @@ func (e *Engine) initExt2() {
 			})
 		}
 	}
-	uf([]string{"github.com/spdx/tools-golang/spdx/v2/common.MakeDocElementID", "path/filepath.Join", "sigs.k8s.io/release-utils/version.GetVersionInfo"}, "pure function of its arguments (uninterpreted)")
+	uf([]string{"github.com/spdx/tools-golang/spdx/v2/common.MakeDocElementID", "sigs.k8s.io/release-utils/version.GetVersionInfo"}, "pure function of its arguments (uninterpreted)")
+	e.reg("path/filepath.Join", "filepath.Join(dir, name): a function of its two arguments whose directory part is dir (name is a plain file name)", func(f *Frame, st *State, c *ssa.CallCommon, args []Val, rt types.Type, pos token.Pos) Val {
+		vc := f.vc
+		if c != nil {
+			if vs, ok := varargsOf(c.Args[0]); ok && len(vs) == 2 {
+				a, b := f.val(vs[0]).one(), f.val(vs[1]).one()
+				jn := vc.declareFun("fs.join", []*Sort{SStr, SStr}, SStr)
+				dirOf := vc.declareFun("fs.dirOf", []*Sort{SStr}, SStr)
+				t := mk(SStr, jn, a, b)
+				vc.fact(Eq(mk(SStr, dirOf, t), a))
+				return scalar(rt, t)
+			}
+		}
+		return freshResult(f, st, rt, "path")
+	})
 
 	// ---- protobuf ----
 	e.reg("google.golang.org/protobuf/proto.Marshal", "proto.Marshal(m): reads m; returns bytes or an error", func(f *Frame, st *State, c *ssa.CallCommon, args []Val, rt types.Type, pos token.Pos) Val {
@@ -355,9 +370,9 @@ func (e *Engine) initExt2() {
 	e.reg("os.MkdirAll", "os.MkdirAll(path, mode): creates the directory; requires a mode that leaves the directory usable by its owner (mode&0300 == 0300)", func(f *Frame, st *State, c *ssa.CallCommon, args []Val, rt types.Type, pos token.Pos) Val {
 		if c != nil {
 			if m, ok := constInt(c.Args[1]); ok {
-				f.oblige(st, "TRACE", "MkdirAll: directory mode lacks owner write/search permission", pos, BoolT(m&0o300 == 0o300))
+				f.oblige(st, "TRACE", "C19:MkdirAll: directory mode lacks owner write/search permission", pos, BoolT(m&0o300 == 0o300))
 			} else {
-				f.oblige(st, "TRACE", "MkdirAll: directory mode not a constant", pos, False)
+				f.oblige(st, "TRACE", "C19:MkdirAll: directory mode not a constant", pos, False)
 			}
 		}
 		return freshResult(f, st, rt, "err")
@@ -367,6 +382,10 @@ func (e *Engine) initExt2() {
 		return freshResult(f, st, rt, "err")
 	})
 	e.reg("os.Rename", "os.Rename(old, new): atomic replacement within one directory (POSIX)", func(f *Frame, st *State, c *ssa.CallCommon, args []Val, rt types.Type, pos token.Pos) Val {
+		if rf := f.rootFrame(); f.vc.want("TRACE") && rf.spec != nil && rf.spec.CrashAtomic {
+			dirOf := f.vc.declareFun("fs.dirOf", []*Sort{SStr}, SStr)
+			f.oblige(st, "TRACE", "C20:rename is atomic only within one directory", pos, Eq(mk(SStr, dirOf, args[0].one()), mk(SStr, dirOf, args[1].one())))
+		}
 		f.fsWrite(st, "Rename", args[1].one(), true, pos)
 		return freshResult(f, st, rt, "err")
 	})
@@ -415,8 +434,128 @@ func (f *Frame) fsWrite(st *State, op string, p Term, atomic bool, pos token.Pos
 	isTmp := vc.declareFun("fs.isTemp", []*Sort{SStr}, SBool)
 	// entries (*.protobom final paths) are never temp paths
 	if atomic {
-		f.oblige(st, "TRACE", "crash during "+op+": atomic replacement keeps old or new entry", pos, True2())
+		f.oblige(st, "TRACE", "C20:crash during "+op+": atomic replacement keeps old or new entry", pos, True2())
 		return
 	}
-	f.oblige(st, "TRACE", "crash during "+op+": a non-atomic write must target a temporary path, never a stored entry", pos, mk(SBool, isTmp, p))
+	f.oblige(st, "TRACE", "C20:crash during "+op+": a non-atomic write must target a temporary path, never a stored entry", pos, mk(SBool, isTmp, p))
+}
+
+// injApp applies an uninterpreted function that is trusted to be injective in
+// all its arguments: besides f(args) it declares one inverse per argument and
+// emits the ground facts inv_i(f(args)) == args[i] (no quantifiers needed).
+func (vc *VC) injApp(name string, args []Term, res *Sort) Term {
+	var sorts []*Sort
+	for _, a := range args {
+		sorts = append(sorts, a.Sort)
+	}
+	fn := vc.declareFun(name, sorts, res)
+	t := mk(res, fn, args...)
+	if len(args) == 0 {
+		t = Term{fn, res}
+	}
+	for i, a := range args {
+		inv := vc.declareFun(fmt.Sprintf("%s|inv%d", name, i), []*Sort{res}, a.Sort)
+		vc.fact(Eq(mk(a.Sort, inv, t), a))
+	}
+	return t
+}
+
+// injectiveFormats: Sprintf formats whose output determines the arguments
+// (justification in the comment of each entry).
+var injectiveFormats = map[string]bool{
+	"%x.protobom": true, // hex digits of a fixed-size array followed by a literal suffix
+	"%d:%s":       true, // decimal digits contain no ':', so the first ':' splits uniquely
+	"%09d":        true, // zero-padded decimal of a non-negative int
+}
+
+// varargsOf recovers the individual arguments of a variadic call written with
+// explicit arguments (the compiler's varargs array idiom).
+func varargsOf(v ssa.Value) ([]ssa.Value, bool) {
+	sl, ok := v.(*ssa.Slice)
+	if !ok {
+		if c, isC := v.(*ssa.Const); isC && c.Value == nil {
+			return nil, true // no variadic arguments
+		}
+		return nil, false
+	}
+	al, ok := sl.X.(*ssa.Alloc)
+	if !ok {
+		return nil, false
+	}
+	at, ok := deref(al.Type()).Underlying().(*types.Array)
+	if !ok {
+		return nil, false
+	}
+	out := make([]ssa.Value, at.Len())
+	for _, ref := range *al.Referrers() {
+		ia, ok := ref.(*ssa.IndexAddr)
+		if !ok {
+			continue
+		}
+		idx, ok := constInt(ia.Index)
+		if !ok || idx < 0 || idx >= at.Len() {
+			return nil, false
+		}
+		for _, r2 := range *ia.Referrers() {
+			if st, ok := r2.(*ssa.Store); ok && st.Addr == ia {
+				out[idx] = st.Val
+			}
+		}
+	}
+	for _, o := range out {
+		if o == nil {
+			return nil, false
+		}
+	}
+	return out, true
+}
+
+func (e *Engine) initExt3() {
+	e.reg("fmt.Sprintf", "fmt.Sprintf(format, args...): with a constant format and explicit arguments, a function of the format and the argument values (injective for the formats listed in injectiveFormats); otherwise an unconstrained string", func(f *Frame, st *State, c *ssa.CallCommon, args []Val, rt types.Type, pos token.Pos) Val {
+		vc := f.vc
+		if c != nil {
+			if fc, ok := c.Args[0].(*ssa.Const); ok && fc.Value != nil {
+				format := constant.StringVal(fc.Value)
+				if vs, ok := varargsOf(c.Args[1]); ok {
+					var ts []Term
+					okAll := true
+					for _, v := range vs {
+						x := v
+						if mi, isMI := v.(*ssa.MakeInterface); isMI {
+							x = mi.X
+						}
+						val := f.val(x)
+						if _, isIface := x.Type().Underlying().(*types.Interface); isIface || len(val.L) == 0 {
+							okAll = false
+							break
+						}
+						ts = append(ts, val.L...)
+					}
+					if okAll {
+						name := "sprintf|" + format
+						if injectiveFormats[format] {
+							return scalar(rt, vc.injApp(name, ts, SStr))
+						}
+						var sorts []*Sort
+						for _, t := range ts {
+							sorts = append(sorts, t.Sort)
+						}
+						fn := vc.declareFun(name, sorts, SStr)
+						if len(ts) == 0 {
+							return scalar(rt, Term{fn, SStr})
+						}
+						return scalar(rt, mk(SStr, fn, ts...))
+					}
+				}
+			}
+		}
+		return freshResult(f, st, rt, "sprintf")
+	}).mods = allocMods
+	e.reg("crypto/sha256.Sum256", "sha256.Sum256(b): a function of the byte contents; trusted collision-free (injective)", func(f *Frame, st *State, c *ssa.CallCommon, args []Val, rt types.Type, pos token.Pos) Val {
+		vc := f.vc
+		name := compElem(types.Typ[types.Uint8], "")
+		vc.registerComp(name, SArr(SInt, SArr(SInt, SInt)))
+		row := Select(vc.get(st, name), args[0].arr())
+		return Val{T: rt, L: []Term{vc.injApp("sha256", []Term{row, args[0].len()}, SInt)}}
+	})
 }
